@@ -528,6 +528,11 @@ def assemble(unit: dict, scratch: str, passname="A") -> Assembled:
         if c["name"] in seen_c or c["name"] in set(unit.get("skip_consts", [])):
             continue
         seen_c.add(c["name"])
+        m = re.search(r'(?:short\s*\(|symbol_short\s*!\s*\()\s*"([A-Za-z0-9_]*)"', c["expr"])
+        if c["ty"].endswith("Symbol") and m:
+            # a Symbol constant: Verus consts cannot call exec code, so emit an exec const with its value as a postcondition
+            parts.append(f'pub exec const {c["name"]}: Symbol ensures {c["name"]}.code@ == str_code("{m.group(1)}"@) {{ Symbol::vx_const("{m.group(1)}") }}')
+            continue
         parts.append(f"pub const {c['name']}: {c['ty']} = {c['expr']};")
     parts.append("// ==== data types generated from the source items (T7) ====")
     seen_t = set()
